@@ -22,7 +22,7 @@ RULE = ("one case = (a) one flat table (0-300 records, labels int or str: sorted
 ASSUMPTIONS = ["label order = pandas' index order (ints by value, strings lexicographically), labels are mapped to order-preserving integers",
                "element view: inputs without NaN (boxing a row into pandas cannot tell NaN from null)"]
 CORRESPONDENCE = "m_pack_flat / m_pack_sorted (Frame.v) vs packer.pack_flat; flatten_packed vs nest.to_flat"
-EXTRA_IMPORTS = "Frame"
+EXTRA_IMPORTS = "Frame Bridge"
 
 
 def gen_flat(rng, heavy):
@@ -145,14 +145,36 @@ def generate(ctx):
             labels, lkind = gen.gen_labels(rng, n)
             s = pd.Series(inp["arr"], index=labels, name="n")
 
+            lists_df = s.nest.to_lists()
+            # the physical list columns pack_lists is handed (chunking as the list view produces it, or re-chunked unevenly so that
+            # the chunk-alignment branch and the combine branch are both taken)
+            rechunk = rng.random() < 0.4 and n > 1
+            if rechunk:
+                cut_per_col = [sorted(rng.sample(range(0, n + 1), rng.randint(0, 2))) for _ in names]
+                cols_pa = []
+                for nm, cuts in zip(names, cut_per_col):
+                    whole = lists_df[nm].array._pa_array.combine_chunks()
+                    bounds = [0] + cuts + [n]
+                    cols_pa.append(pa.chunked_array([whole.slice(a, b - a) for a, b in zip(bounds, bounds[1:])], type=whole.type))
+                lists_df = pd.DataFrame({nm: pd.Series(c, dtype=pd.ArrowDtype(c.type), index=lists_df.index) for nm, c in zip(names, cols_pa)},
+                                        index=lists_df.index)
+            cols_t = []
+            for (nm, ty) in schema:
+                carr = lists_df[nm].array._pa_array
+                chunks_t = core.cq_list(core.cq_larr(ch.offsets.to_pylist(), ch.is_valid().to_pylist(), core.child_values(ch.values)) for ch in carr.chunks)
+                cols_t.append(f"({core.cq_str(nm)}, {core.ETY[str(gen.TYPES[ty])]}, {chunks_t})")
+
             def run3():
-                back = pack_lists(s.nest.to_lists(), name="n")
+                back = pack_lists(lists_df, name="n")
                 assert back.dtype == s.dtype, "dtype changed"
                 assert [repr(x) for x in back.index] == [repr(x) for x in labels]
-                return fo.rows_rm(back.array.chunked_array)
+                return back.array.chunked_array
             res = attempt(run3)
             want = [r if r is not None else [] for r in rows]
-            term = f"(chk_rows (Ok {fo.cq_nrows(want)}) (Ok {fo.cq_nrows(want)}) {fo.cq_res_nrows(res)})"
+            impl_rows = ("ok", fo.rows_rm(res[1])) if res[0] == "ok" else res
+            impl_lcol = f"(Ok {core.cq_lcol(core.logical(res[1]))})" if res[0] == "ok" else "Err"
+            term = (f"(match chk_rows (Ok {fo.cq_nrows(want)}) (Ok {fo.cq_nrows(want)}) {fo.cq_res_nrows(impl_rows)} with [a; b; c; s0] => "
+                    f"[res_eqb lcol_eqb (res_map abs (m_pack_lists {cq_list(cols_t)} true)) {impl_lcol}; b; c; s0] | l => l end)")
             cases.append(mk(i, "lists_roundtrip", term, dict(ao.input_repr(inp), labels=[repr(x) for x in labels]), res,
                             [direction, inp["recipe"], lkind, n], any(rows), {"op": "lists_roundtrip", "layout": inp["recipe"]}, inp))
         else:
